@@ -13,6 +13,7 @@ import ASV.Proofs.Components
 import ASV.Proofs.ProtoExtend
 import ASV.Proofs.ProtoRing
 import ASV.Proofs.ProtoRingSep
+import ASV.Proofs.ProtoRingFinal
 namespace ASV.C03
 open ASV ASV.Rules ASV.Proto ASV.Chains ASV.ChainSweep
 
@@ -320,6 +321,27 @@ theorem ring_chains_not_split_partial (r : Rec) (hcirc : r.circular = true) (hL 
     · refine List.Pairwise.imp_of_mem ?_ m2
       intro p q hp hq hpq
       exact hpq ((hrule p hp).trans (hrule q hq).symm) rule (by rw [hrule p hp]; exact hfind)
+
+/-- **The reported protoclusters on any circular record** (end to end, through extenders, superiors and
+    both merges): whenever `detect_protoclusters_and_signatures` returns on a circular record whose genes
+    are valid ring locations, every reported core is a well-formed area, and two reported protoclusters of
+    the same rule are further apart than that rule's cutoff, the shorter way round the ring — no chain
+    is ever reported in two pieces, wherever the origin lies.  (`within` is arbitrary here.) -/
+theorem reported_protoclusters_far_apart_ring (within : Lookup) (r : Rec) (hcirc : r.circular = true) (hL : 0 < r.len)
+    (rules : List RuleM)
+    (hrules : ∀ name rule, findRule rules name = .ok rule → 0 ≤ rule.cutoff ∧ rule.cutoff ≤ r.len)
+    (hgenes : ∀ g ∈ r.genes, RingIn r.len g.loc) (outs : List Out)
+    (h : detectProtoclusters within r rules = .ok outs) :
+    (∀ o ∈ outs, RingArea r.len o.pc.core) ∧
+    (outs.map (·.pc)).Pairwise (fun p q => p.rule = q.rule → ∀ rule, findRule rules p.rule = .ok rule →
+      FarApart r.len rule.cutoff p.core q.core) := by
+  simp only [detectProtoclusters, bind, Except.bind] at h
+  cases hs : detectStages within r rules with
+  | error e => simp [hs] at h
+  | ok s =>
+    simp only [hs, pure, Except.pure, Except.ok.injEq] at h
+    subst h
+    exact detectStages_ring within r hcirc hL rules hrules hgenes s hs
 
 /-- **The per-cutoff cache is transparent** (after the repair of D1): walking the rules of one gene
     with `info_by_range` gives exactly what recomputing the nearby genes for every rule gives, for
